@@ -551,7 +551,7 @@ def rules(chk: Check) -> None:
     K = None
     # the kinetic term: the summand of the action that contains both phase locations
     kin = [st for st in own_nodes(fa.node) if isinstance(st, ast.Assign) and has(st.value, "vevHighT") and has(st.value, "vevLowT")
-           and not any(True for _ in calls_in(st.value, "wallProfile"))]
+           and not any(isinstance(c_, ast.Call) and (dotted(c_.func) or "").endswith("wallProfile") for c_ in ast.walk(st.value))]
     for st in kin:
         K = Extractor(S).expr(ca.resolve(st.value, keep={"vevHighT", "vevLowT"}), {"__module__": "equationOfMotion", "__class__": "EOM"})
     okk = None
